@@ -850,7 +850,7 @@ impl endpoint::Session for Session {
 
             let chunk_inds = consecutive_chunk_indices(&delivery_ids[..]);
 
-            let mut dispositions = Vec::with_capacity(chunk_inds.len());
+            let mut dispositions = Vec::with_capacity(chunk_inds.len().saturating_add(1));
             let mut prev_ind = 0;
             for ind in chunk_inds {
                 let slice = &delivery_ids[prev_ind..ind];
@@ -864,6 +864,20 @@ impl endpoint::Session for Session {
                 };
                 dispositions.push(disposition);
                 prev_ind = ind;
+            }
+            // The chunk indices only mark where a new run of consecutive ids begins, so
+            // the last (or only) run still has to be echoed
+            let final_slice = &delivery_ids[prev_ind..];
+            if !final_slice.is_empty() {
+                let disposition = Disposition {
+                    role: Role::Sender,
+                    first: final_slice[0],
+                    last: final_slice.last().copied(),
+                    settled: true,
+                    state: disposition.state.clone(),
+                    batchable: false,
+                };
+                dispositions.push(disposition);
             }
             Ok(Some(dispositions))
         }
